@@ -373,6 +373,14 @@ class lodict(odict):
         return default
 
 
+    def sift(self, fields=None):
+        """
+        Make field names lowercase then sift
+        """
+        if fields is not None:
+            fields = [key.lower() for key in fields]
+        return super(lodict, self).sift(fields)
+
     def update(self, *pa, **kwa):
         """
         lodict.update(pa1, pa2, ...) where pa = tuple of positional args,
